@@ -764,18 +764,24 @@ func (e *Engine) evalPureInvoke(c *evalCtx, recv Val, m *types.Func, args []Val)
 		}
 		return v
 	}
-	// open interface: uninterpreted function of the dynamic value
+	// open interface: uninterpreted functions of the dynamic value (one per result leaf)
 	if sig.Results().Len() == 1 {
 		rt := sig.Results().At(0).Type()
 		ss := leafSorts(rt)
-		if len(ss) == 1 {
-			ts := []*Term{tag, recv.iPl()}
-			for _, a := range args {
-				ts = append(ts, a.L...)
-			}
-			name := "dyn!" + typeName(recv.T) + "." + m.Name()
-			return Val{rt, []*Term{App(name, ss[0], ts...)}}
+		ts := []*Term{tag, recv.iPl()}
+		for _, a := range args {
+			ts = append(ts, a.L...)
 		}
+		name := "dyn!" + typeName(recv.T) + "." + m.Name()
+		L := make([]*Term, len(ss))
+		for i, srt := range ss {
+			n := name
+			if len(ss) > 1 {
+				n = fmt.Sprintf("%s#%d", name, i)
+			}
+			L[i] = App(n, srt, ts...)
+		}
+		return Val{rt, L}
 	}
 	panic(fmt.Errorf("cannot evaluate interface method %s.%s in a contract", typeName(recv.T), m.Name()))
 }
